@@ -143,18 +143,18 @@ type Extra struct {
 }
 
 type Result struct {
-	Case     int      `json:"case"`
-	OK       bool     `json:"ok"`
-	Sig      string   `json:"sig,omitempty"`
-	Detail   string   `json:"detail,omitempty"`
-	Skipped  string   `json:"skipped,omitempty"`  // the case could not be steered (reason); no verdict
-	Diverge  string   `json:"diverge,omitempty"`  // behaviour outside C09 that differs from the model (array length)
-	More     []Extra  `json:"more,omitempty"`     // further distinct failures of the same case
-	Contexts int      `json:"contexts"`
-	Items    int      `json:"items"`   // object/filterResult pairs compared
-	Filters  int      `json:"filters"` // filterResult values compared with the independent jq evaluation
-	Rendered string   `json:"rendered,omitempty"`
-	ViaFile  bool     `json:"via_file,omitempty"`
+	Case     int     `json:"case"`
+	OK       bool    `json:"ok"`
+	Sig      string  `json:"sig,omitempty"`
+	Detail   string  `json:"detail,omitempty"`
+	Skipped  string  `json:"skipped,omitempty"` // the case could not be steered (reason); no verdict
+	Diverge  string  `json:"diverge,omitempty"` // behaviour outside C09 that differs from the model (array length)
+	More     []Extra `json:"more,omitempty"`    // further distinct failures of the same case
+	Contexts int     `json:"contexts"`
+	Items    int     `json:"items"`   // object/filterResult pairs compared
+	Filters  int     `json:"filters"` // filterResult values compared with the independent jq evaluation
+	Rendered string  `json:"rendered,omitempty"`
+	ViaFile  bool    `json:"via_file,omitempty"`
 }
 
 // ---------------------------------------------------------------------------------------------------------
